@@ -118,10 +118,13 @@ def seq_axioms():
     x, y, zz = z3.Consts('x!s y!s z!s', ByteSeq)
     a = z3.Const('a!s', ArrII); lo, hi, k = z3.Ints('lo!s hi!s k!s')
     return [
-        z3.ForAll([x, y, zz], cat(cat(x, y), zz) == cat(x, cat(y, zz))),
-        z3.ForAll([x], cat(x, sempty) == x), z3.ForAll([x], cat(sempty, x) == x),
-        z3.ForAll([x, y], slen(cat(x, y)) == slen(x) + slen(y)), slen(sempty) == 0, z3.ForAll([x], slen(x) >= 0),
-        z3.ForAll([k], slen(sbyte(k)) == 1),
+        # explicit triggers: associativity is used as a rewrite rule from left-nested to right-nested only (without a
+        # trigger z3 instantiates it in both directions and builds ever larger concatenations)
+        z3.ForAll([x, y, zz], cat(cat(x, y), zz) == cat(x, cat(y, zz)), patterns=[cat(cat(x, y), zz)]),
+        z3.ForAll([x], cat(x, sempty) == x, patterns=[cat(x, sempty)]), z3.ForAll([x], cat(sempty, x) == x, patterns=[cat(sempty, x)]),
+        z3.ForAll([x, y], slen(cat(x, y)) == slen(x) + slen(y), patterns=[cat(x, y)]), slen(sempty) == 0,
+        z3.ForAll([x], slen(x) >= 0, patterns=[slen(x)]),
+        z3.ForAll([k], slen(sbyte(k)) == 1, patterns=[sbyte(k)]),
     ]
 
 def split_fact(a, l, k, h):
